@@ -157,16 +157,15 @@ FIELDS = [('oids', 'observation ids'), ('sids', 'sample ids'), ('mat', 'matrix v
           ('sgmd', 'sample group metadata payload')]
 
 
-def oracle(case, obs):
+def oracle(case, obs, want=None):
     if case.get('kind', 'table') != 'table':
         return []
     if 'build' in obs:
         return ['could not build the source table: %s' % (obs['build'],)]
     if obs.get('write') != 'ok':
         return ['writing a table of the property domain failed: %s' % (obs.get('write'),)]
-    want = U.source_content(case)
     from .core import canon
-    want = canon(want)
+    want = canon(want or U.source_content(case))
     fails = []
     for path in ('load_table', 'parse_table', 'from_hdf5'):
         got = obs.get(path)
@@ -272,4 +271,30 @@ def shrink(case):
         yield dict(case, writer='to_hdf5')
 
 
-SIGNATURES = {}
+# ---------------------------------------------------------------- known findings
+def _mangle(name):
+    """what the writer's escape followed by the reader's unescape makes of a category name"""
+    return name.replace('/', '@@SLASH@@').replace('@@SLASH@@', '/')
+
+
+def _sig_f38(case, impl_obs, model_obs, fails):
+    """F38: the slash escape of category names is not injective.  Matches only if (a) some category name
+    of the case does not survive the escape and (b) the loaded tables are exactly the source with those
+    names mangled the way the escape mangles them - any other difference stays a violation."""
+    if case.get('kind', 'table') != 'table' or not fails or not isinstance(impl_obs, dict):
+        return False
+    s = case['spec']
+    bad = [k for ax in ('omd', 'smd') if s.get(ax) for k in s[ax][0] if _mangle(k) != k]
+    if not bad:
+        return False
+    want = U.source_content(case)
+    for ax in ('omd', 'smd'):
+        if want[ax] is not None:
+            rows = [{_mangle(k): v for k, v in row.items()} for row in want[ax]]
+            if any(len(r) != len(w) for r, w in zip(rows, want[ax])):
+                return False        # two names collapse into one: not this finding
+            want[ax] = rows
+    return oracle(case, impl_obs, want) == []
+
+
+SIGNATURES = {'F38': _sig_f38}
